@@ -136,3 +136,56 @@ def run(ctx):
     for rb in removals:
         if not any(b.dominates(n, rb) for n in none_t):
             ctx.violation(R_END, key + "|removal-without-end", "a source is removed on a path on which it did not report Ready(None): its later items would be lost", b.loc(rb))
+    # ---- cleanup: a slot marked removed (None) must be compacted away before poll_next returns: the polling loop unwraps every slot it visits
+    R_CL = ctx.rule("C15.cleanup", "after a source slot was marked removed, every path to return passes through the compaction (Vec::retain) of the source list", floor=1)
+    retains = set(bb for bb, t in b.calls() if t.get("f") and t["f"]["name"] in ("retain", "retain_mut", "swap_remove", "remove", "drain"))
+    rets = set(b.returns())
+    ctx.inst(R_CL, key + "|cleanup", sites=len(removals), sample={"removal_blocks": removals, "compaction_blocks": sorted(retains)})
+    if not retains:
+        ctx.anchor_missing(R_CL, "compaction of the source list (Vec::retain) in MergeSource::poll_next")
+    unwraps = [bb for bb, t in b.calls() if t.get("f") and t["f"]["name"] in ("unwrap", "expect") and any("Option<" in b.locals[pl_local(op_place(a))] and "core::pin::Pin<" in b.locals[pl_local(op_place(a))] for a in t["a"] if op_place(a) is not None)]
+    for rb in removals:
+        ok = _all_paths_pass_with_flags(b, rb, retains, rets)
+        if not ok and unwraps:
+            ctx.violation(R_CL, key + "|return-without-compaction", "a source slot is set to None and a path returns before the list is compacted, while the polling loop unwraps every slot it visits: "
+                          "the next poll panics on the stale slot and the remaining items of all sources are never delivered", b.loc(rb), {"path_blocks": b.find_path(rb, rets, avoid=retains)})
+
+
+def _all_paths_pass_with_flags(b, start, targets, exits):
+    """every path start -> exit passes a target block, where bool locals set to `true` in the start block are known true
+    (their `false` switch edge is infeasible) until reassigned"""
+    def consts_set(bb, known):
+        known = set(known)
+        for st in b.stmts(bb):
+            if "lhs" in st and isinstance(st["lhs"], int):
+                rv = st["rv"]
+                if rv["k"] == "use" and rv["ops"][0].get("c") == "true":
+                    known.add(st["lhs"])
+                elif rv["k"] == "use" and isinstance(op_place(rv["ops"][0]), int) and op_place(rv["ops"][0]) in known:
+                    known.add(st["lhs"])
+                else:
+                    known.discard(st["lhs"])
+        return known
+    seen = set()
+    work = [(start, frozenset())]
+    first = True
+    while work:
+        bb, known = work.pop()
+        if (bb, known) in seen:
+            continue
+        seen.add((bb, known))
+        if bb in targets and not first:
+            continue
+        known2 = frozenset(consts_set(bb, known))
+        first = False
+        if bb in exits:
+            return False
+        t = b.term(bb)
+        if t["k"] == "switch":
+            p = op_place(t["d"])
+            if isinstance(p, int) and p in known2:
+                work.append((t["o"], known2))
+                continue
+        for s_ in b.succs(bb):
+            work.append((s_, known2))
+    return True
